@@ -1,5 +1,6 @@
 """C14pcap (sub-check of C14: classic pcap writer/reader) configuration for ./check"""
 CONF = {
+    'coq_sample': 8,   # cases re-evaluated inside Coq by vm_compute against the extracted runner's output
     'interesting': ['cut-in-header', 'cut-in-data', 'cut-at-boundary', 'nano', 'big-endian', 'zero-copy'],
     'rule': 'Files of 0..8 (small) or up to ~4000 (large) packets with boundary data lengths, timestamps, snap lengths and link types, micro/nanosecond, written by pcapgo.Writer or built by hand in either byte order; files <= 4 KiB are read at EVERY truncation offset, larger ones at offsets 0..26, around record boundaries and at random offsets; ReadPacketData and ZeroCopyReadPacketData alternate. Written bytes, header, every read result and per cut (packets returned, final error class, prefix-of-full-read flag) are compared with the model; the round-trip / true-prefix oracle runs on the implementation for cases inside the hypotheses. Support oracle (testing only, not modelled): whole files with 1<=snaplen<=262144 are also read through libpcap (pcap.OpenOffline, cgo) and must give the same packets (seconds compared mod 2^32: libpcap 1.10 reads tv_sec as signed).',
     'shrink_keep_first': 1,
